@@ -261,6 +261,26 @@ func c18(c *h.Ctx) {
 				want = got // the message itself starts with '[': outside the hypothesis of prefix_parse
 			}
 			c.Hold(got == want, "prefix_parse", in, got, want)
+			// the whole line, computed here from the call alone (not through the model): after the level label and
+			// the timestamp comes "[pid][cid]" (or "[pid]"), one space, and the message exactly as fmt renders the
+			// call's own format and operands ONCE — a '%' in the rendered message is text, not a verb
+			if f := strings.Fields(cx.want); len(f) >= 2 {
+				prefix := "[" + f[1] + "]"
+				if len(f) == 3 {
+					prefix += "[" + f[2] + "]"
+				}
+				var rest string
+				if printf {
+					rest = fmt.Sprintf(format, ops...) + "\n"
+				} else {
+					rest = fmt.Sprintln(ops...)
+				}
+				// one separating space; the Println-style functions put a second one after "[pid]" (the template
+				// "[%v] " is itself an operand of Println) — existing spelling, accepted
+				b := string(body)
+				okLine := b == prefix+" "+rest || (!printf && b == prefix+"  "+rest) || (!printf && len(ops) == 0 && b == prefix+"\n")
+				c.Hold(okLine, "line.is_prefix_then_message", in, h.Trunc(b, 200), h.Trunc(prefix+" "+rest, 200))
+			}
 		}
 		c.Case(bucket+"/"+strings.SplitN(cx.model, ":", 2)[0], in, true)
 	}
@@ -284,6 +304,39 @@ func c18(c *h.Ctx) {
 			}
 		}
 	}
+	// 3c. "to the current writer", through a history of Switch and Close: the same writer installed again after a
+	// Close, another writer, and back — every line goes to the writer installed last, exactly once, and to no other
+	{
+		other := &c18sink{}
+		one := func(w *c18sink, not *c18sink, what string, step string) {
+			not.take()
+			w.take()
+			ol.T(nil, what)
+			ol.Wf(ctxs[1].v, "%v", what)
+			ol.E(c18obj(7), what)
+			got, stray := w.take(), not.take()
+			ok := len(got) == 3 && len(stray) == 0
+			for _, l := range got {
+				ok = ok && bytes.Contains(l, []byte(what))
+			}
+			c.Hold(ok, "line.to_the_current_writer", "logger history: "+step, fmt.Sprintf("%d lines at the current writer, %d at the other", len(got), len(stray)), "3 lines at the current writer, 0 elsewhere")
+			c.Case("line/writer-history", step, true)
+		}
+		one(sink, other, "first", "Switch(a); log")
+		ol.Close()
+		ol.Switch(sink)
+		one(sink, other, "reopened", "Switch(a); Close(); Switch(a); log")
+		ol.Switch(sink)
+		one(sink, other, "same-again", "Switch(a); Switch(a); log")
+		ol.Switch(other)
+		one(other, sink, "moved", "Switch(a); Switch(b); log")
+		ol.Close()
+		ol.Switch(other)
+		one(other, sink, "b-reopened", "Switch(b); Close(); Switch(b); log")
+		ol.Switch(sink)
+		one(sink, other, "back", "Switch(b); Switch(a); log")
+	}
+
 	// F20 regression (fixed finding): the documentation's own example, an object with Cid() = 100
 	{
 		c18log("trace", false, c18obj(100), []interface{}{"The log text."}, "")
